@@ -168,6 +168,8 @@ class VSock:
 
     def sendall(self, data, flags=0):
         self._chk()
+        if self.net.pre_send_observer is not None:
+            self.net.pre_send_observer(self)
         b = bytes(data)
         self.send_calls += 1
         if self.fail_send_at is not None and self.send_calls >= self.fail_send_at and self.peer != "open":
@@ -284,6 +286,7 @@ class VNet:
         self.cli_pump: Optional[Callable[[], bool]] = None
         self.shuffle: Callable[[list], None] = lambda l: None
         self.send_observer: Optional[Callable] = None
+        self.pre_send_observer: Optional[Callable] = None
         self.connect_observer: Optional[Callable] = None
         self.cli_nonwritable = False
 
